@@ -43,6 +43,8 @@ pub struct Probe {
 
 pub struct TestImpl {
     pub probe: Probe,
+    /// write every byte offered to the upgraded handler back to the peer (process-level checks)
+    pub echo_upgraded: bool,
 }
 
 
@@ -103,7 +105,7 @@ impl org_verif_test::VarlinkInterface for TestImpl {
 
     fn call_upgraded(
         &self,
-        _call: &mut varlink::Call,
+        call: &mut varlink::Call,
         bufreader: &mut dyn BufRead,
     ) -> varlink::Result<Vec<u8>> {
         self.probe.upgraded_calls.fetch_add(1, Ordering::SeqCst);
@@ -114,6 +116,13 @@ impl org_verif_test::VarlinkInterface for TestImpl {
                     break;
                 }
                 self.probe.upgraded.lock().unwrap().extend_from_slice(buf);
+                if self.echo_upgraded {
+                    // echo with ASCII letters upper-cased, so that bytes merely looped back by a
+                    // proxy cannot be mistaken for the service's answer
+                    let up: Vec<u8> = buf.iter().map(|b| b.to_ascii_uppercase()).collect();
+                    call.writer.write_all(&up).map_err(varlink::map_context!())?;
+                    call.writer.flush().map_err(varlink::map_context!())?;
+                }
                 buf.len()
             };
             bufreader.consume(n);
@@ -139,6 +148,10 @@ echo_only!(org_verif_test_upper);
 
 /// The full T-service: org.verif.test plus its three name variants.
 pub fn t_service() -> (varlink::VarlinkService, Probe) {
+    t_service_with(false)
+}
+
+pub fn t_service_with(echo_upgraded: bool) -> (varlink::VarlinkService, Probe) {
     let probe = Probe::default();
     let svc = varlink::VarlinkService::new(
         VENDOR,
@@ -148,6 +161,7 @@ pub fn t_service() -> (varlink::VarlinkService, Probe) {
         vec![
             Box::new(org_verif_test::new(Box::new(TestImpl {
                 probe: probe.clone(),
+                echo_upgraded,
             }))),
             Box::new(org_verif::new(Box::new(EchoOnly))),
             Box::new(org_verif_test_2::new(Box::new(EchoOnly))),
